@@ -1472,6 +1472,8 @@ class EffectDomain(DefaultDomain):
         if d == "isinstance" and len(call.args) == 2 and not call.keywords:
             # an abstract exception ("exc", ClassName): decided by name against exception classes named in the test
             tnames = [(dotted(t) or "").split(".")[-1] for t in (call.args[1].elts if isinstance(call.args[1], ast.Tuple) else [call.args[1]])]
+            if os.environ.get("TTSA_TRACE_ISINSTANCE"):
+                print("ISINSTANCE?", fr.name, norm(call)[:60], [(r.kind, str(r.value)[:80]) for r in interp.eval_list(list(call.args), st, fr)])
             if all(tnames) and any(st.has(fr.local(n_)) for n_ in tnames):
                 # the class comes from a variable: exception classes travel as ("excclass", Name)
                 got = [r for r in interp.eval(call.args[1], st, fr) if r.kind == "val"]
@@ -1486,6 +1488,8 @@ class EffectDomain(DefaultDomain):
                         out.append(r)
                     elif isinstance(r.value, tuple) and len(r.value) >= 2 and r.value[0] == "exc" and isinstance(r.value[1], str):
                         verdict = self._exc_isinstance(r.value[1], tnames, fr)
+                        if os.environ.get("TTSA_TRACE_ISINSTANCE"):
+                            print("ISINSTANCE", r.value, tnames, verdict)
                         if verdict is None:
                             known = False
                         else:
